@@ -246,4 +246,284 @@ theorem clckTick_post {w w' : World} {j fn : Nat} {ds : List Dgram} {st : Nat}
         refine ⟨Frame.trans ?_ f, extra, he, fun d hd => (hds d hd).of_frame ?_⟩ <;>
           exact Frame.setTrx _ _ _ (fun _ => rfl) (fun _ => rfl)
 
+
+/-- frame up to the clock counter: `clkSrc` may change but stays defined -/
+structure FrameC (w w' : World) : Prop where
+  hwiring : w'.trxs.map wiring = w.trxs.map wiring
+  hrunning : w'.trxs.map Trx.running = w.trxs.map Trx.running
+  hlinks : w'.clkLinks = w.clkLinks
+  hclk : w'.clkRunning = w.clkRunning
+  hsrc : w.clkSrc.isSome → w'.clkSrc.isSome
+
+theorem Frame.toC {w w' : World} (h : Frame w w') : FrameC w w' :=
+  ⟨h.hwiring, h.hrunning, h.hlinks, h.hclk, fun hs => by rw [h.hsrc]; exact hs⟩
+
+theorem FrameC.refl (w : World) : FrameC w w := (Frame.refl w).toC
+
+theorem FrameC.getElem? {w w' : World} (h : FrameC w w') (k : Nat) (t' : Trx) (ht : w'.trxs[k]? = some t') :
+    ∃ t, w.trxs[k]? = some t ∧ wiring t = wiring t' ∧ t.running = t'.running := by
+  have h1 := getElem?_of_map_eq _ h.hwiring k
+  have h2 := getElem?_of_map_eq Trx.running h.hrunning k
+  rw [ht] at h1 h2
+  cases hk : w.trxs[k]? with
+  | none => rw [hk] at h1; cases h1
+  | some t =>
+    rw [hk] at h1 h2
+    simp only [Option.map_some, Option.some.injEq] at h1 h2
+    exact ⟨t, rfl, h1.symm, h2.symm⟩
+
+theorem FrameC.getElem?' {w w' : World} (h : FrameC w w') (k : Nat) (t : Trx) (ht : w.trxs[k]? = some t) :
+    ∃ t', w'.trxs[k]? = some t' ∧ wiring t = wiring t' ∧ t.running = t'.running := by
+  have h1 := getElem?_of_map_eq _ h.hwiring k
+  have h2 := getElem?_of_map_eq Trx.running h.hrunning k
+  rw [ht] at h1 h2
+  cases hk : w'.trxs[k]? with
+  | none => rw [hk] at h1; cases h1
+  | some t' =>
+    rw [hk] at h1 h2
+    simp only [Option.map_some, Option.some.injEq] at h1 h2
+    exact ⟨t', rfl, h1.symm, h2.symm⟩
+
+theorem FrameC.length {w w' : World} (h : FrameC w w') : w'.trxs.length = w.trxs.length :=
+  length_of_map_eq _ h.hwiring
+
+theorem FrameC.runningOf {w w' : World} (h : FrameC w w') (k : Nat) : runningOf w' k = runningOf w k :=
+  getElem?_of_map_eq Trx.running h.hrunning k
+
+/-- what `tick.go` returns, in terms of the world it starts from -/
+def TickPost (w : World) (fn : Nat) (acc : List Dgram) (r : Res) : Prop :=
+  ∃ w1 extra, Frame w w1 ∧ r.out = acc ++ extra ∧ (∀ d ∈ extra, IsDataDgram w d) ∧
+    ((r.exc = none ∧ r.world = { w1 with clkSrc := some ((fn + 1) % Gen.World.hyperframe) }) ∨
+     (∃ e, r.exc = some e ∧ r.world = w1))
+
+theorem tick_go_post (fn : Nat) (ks : List Nat) :
+    ∀ (w : World) (acc : List Dgram) (stale : Nat), TickPost w fn acc (tick.go fn w acc stale ks) := by
+  induction ks with
+  | nil =>
+    intro w acc stale
+    rw [tick.go.eq_1]
+    exact ⟨w, [], Frame.refl w, (List.append_nil _).symm, (fun _ h => by cases h), .inl ⟨rfl, rfl⟩⟩
+  | cons k ks ih =>
+    intro w acc stale
+    rw [tick.go.eq_2]
+    split
+    next e he =>
+      exact ⟨w, [], Frame.refl w, (List.append_nil _).symm, (fun _ h => by cases h), .inr ⟨e, rfl, rfl⟩⟩
+    next w1 ds st hh =>
+      obtain ⟨f, extra, he, hds⟩ := clckTick_post hh
+      simp only [List.nil_append] at he
+      subst he
+      obtain ⟨w2, extra2, f2, ho, hd2, hw⟩ := ih w1 (acc ++ ds) (stale + st)
+      refine ⟨w2, ds ++ extra2, f.trans f2, by rw [ho, List.append_assoc], ?_, hw⟩
+      intro d hd
+      rcases List.mem_append.mp hd with hd | hd
+      · exact hds d hd
+      · exact (hd2 d hd).of_frame f
+
+theorem TickPost.frameC {w : World} {fn : Nat} {acc : List Dgram} {r : Res} (h : TickPost w fn acc r) :
+    FrameC w r.world := by
+  obtain ⟨w1, extra, f, -, -, hw⟩ := h
+  rcases hw with ⟨-, hw⟩ | ⟨e, -, hw⟩
+  · rw [hw]; exact ⟨f.hwiring, f.hrunning, f.hlinks, f.hclk, fun _ => rfl⟩
+  · rw [hw]; exact f.toC
+
+/-- the model's list of clock indications at a tick -/
+def modelInds (w : World) (fn : Nat) : List Dgram :=
+  if fn % Gen.World.indPeriod = 0 then
+    w.clkLinks.filterMap (fun i => (w.trxs[i]?).map (fun t =>
+      ⟨t.clckPort, t.addr, t.clckRemote, encodeUtf8 (lit "IND CLOCK " ++ natDigits fn ++ [0])⟩))
+  else []
+
+theorem tick_eq_of_src {w : World} {fn : Nat} (hr : w.clkRunning = true) (hs : w.clkSrc = some fn) :
+    tick w = tick.go fn w (modelInds w fn) 0 (List.range w.trxs.length) := by
+  unfold tick
+  rw [if_neg (by simp only [hr, not_true_eq_false, not_false_eq_true])]
+  rw [hs]
+  rfl
+
+theorem tick_not_running {w : World} (hr : w.clkRunning = false) : tick w = { world := w } := by
+  unfold tick
+  rw [if_pos (by simp only [hr, Bool.false_eq_true, not_false_eq_true])]
+
+theorem tick_frameC (w : World) : FrameC w (tick w).world := by
+  cases hr : w.clkRunning with
+  | false => rw [tick_not_running hr]; exact FrameC.refl w
+  | true =>
+    cases hs : w.clkSrc with
+    | none =>
+      unfold tick
+      rw [if_neg (by simp only [hr, not_true_eq_false, not_false_eq_true]), hs]
+      exact FrameC.refl w
+    | some fn =>
+      rw [tick_eq_of_src hr hs]
+      exact (tick_go_post _ _ _ _ _).frameC
+
+theorem jump_frameC (w : World) (fn : Nat) : FrameC w (jump w fn).world := by
+  unfold jump
+  split
+  · exact ⟨rfl, rfl, rfl, rfl, fun _ => rfl⟩
+  · exact FrameC.refl w
+
+theorem recvDataMsg_frame (w : World) (i : Nat) (d : List Nat) : Frame w (recvDataMsg w i d).world := by
+  unfold recvDataMsg
+  split
+  · exact Frame.refl w
+  simp only []
+  repeat' split
+  all_goals first | exact Frame.refl w | skip
+  exact Frame.setTrx _ _ _ (fun _ => rfl) (fun _ => rfl)
+
+
+/-! ### TRXC: classification of `parse_cmd` -/
+
+theorem verifyCmd_zero_iff (req : List Str) (cmd : String) :
+    verifyCmd req cmd 0 = true ↔ req = [lit cmd] := by
+  unfold verifyCmd
+  cases req with
+  | nil => simp
+  | cons v args =>
+    cases args with
+    | nil => simp
+    | cons a as => simp
+
+theorem commonCmd_power {trx : Trx} {req : List Str} {on : Bool}
+    (h : commonCmd trx req = .ok (.power on)) :
+    (on = true ∧ verifyCmd req "POWERON" 0 = true ∧ trx.running = false ∧ trx.ready = true) ∨
+    (on = false ∧ verifyCmd req "POWEROFF" 0 = true ∧ verifyCmd req "POWERON" 0 = false) := by
+  unfold commonCmd at h
+  simp only [bind, Except.bind, pure, Except.pure] at h
+  split at h
+  next h1 =>
+    repeat' split at h
+    all_goals first | (cases h; done) | skip
+    cases h
+    left
+    simp_all
+  next h1 =>
+    split at h
+    next h2 =>
+      cases h
+      right
+      simp_all
+    next h2 =>
+      exfalso
+      repeat' split at h
+      all_goals first | (cases h; done) | skip
+
+theorem fakePmMeasure_frame {w w' : World} {f v : Int} (h : fakePmMeasure w f = .ok (v, w')) : Frame w w' := by
+  unfold fakePmMeasure at h
+  split at h <;> exact randint_frame h
+
+theorem applyAction_frame {w w' : World} {i : Nat} {a : Action} {r : CmdRes}
+    (ha : ∀ on, a ≠ .power on) (h : applyAction w i a = .ok (w', r)) : Frame w w' := by
+  cases a with
+  | patch p rc => 
+    simp only [applyAction, pure, Except.pure, Except.ok.injEq, Prod.mk.injEq] at h
+    rw [← h.1]; exact Frame.setTrx_patch _ _ _
+  | reply rc ps =>
+    simp only [applyAction, pure, Except.pure, Except.ok.injEq, Prod.mk.injEq] at h
+    rw [← h.1]; exact Frame.refl _
+  | power on => exact absurd rfl (ha on)
+  | measure f =>
+    simp only [applyAction, bind, Except.bind, pure, Except.pure] at h
+    split at h
+    · cases h
+    next v hv =>
+      cases h
+      exact fakePmMeasure_frame hv
+
+/-- the world the common handler sees after the custom handler's assignment -/
+def patched (w : World) (i : Nat) : Option Patch → World
+  | some p => setTrx w i p.apply
+  | none => w
+
+theorem patched_frame (w : World) (i : Nat) (p : Option Patch) : Frame w (patched w i p) := by
+  cases p with
+  | none => exact Frame.refl w
+  | some p => exact Frame.setTrx_patch _ _ _
+
+/-- `parse_cmd` after the custom handler -/
+def parseTail (w : World) (i : Nat) (req : List Str) (res : Option Int) : Except Exc (World × CmdRes) :=
+  match res with
+  | some rc => pure (w, (rc, []))
+  | none =>
+    match w.trxs[i]? with
+    | none => throw .indexError
+    | some trx => do
+      let a ← commonCmd trx req
+      applyAction w i a
+
+theorem parseCmd_eq (w : World) (i : Nat) (req : List Str) :
+    parseCmd w i req =
+      match ctrlCmdHandler req with
+      | .error e => .error e
+      | .ok (p, res) => parseTail (patched w i p) i req res := by
+  unfold parseCmd
+  cases ctrlCmdHandler req with
+  | error e => rfl
+  | ok pr =>
+    obtain ⟨p, res⟩ := pr
+    cases p <;> cases res <;> rfl
+
+theorem parseTail_cases {w w' : World} {i : Nat} {req : List Str} {res : Option Int} {r : CmdRes}
+    (h : parseTail w i req res = .ok (w', r)) :
+    Frame w w' ∨
+    ∃ trx on, res = none ∧ w.trxs[i]? = some trx ∧ commonCmd trx req = .ok (.power on) ∧
+      powerEvent w i on = .ok w' ∧ r = (0, []) := by
+  unfold parseTail at h
+  simp only [bind, Except.bind, pure, Except.pure, throw, throwThe, MonadExceptOf.throw] at h
+  split at h
+  · cases h; exact .inl (Frame.refl _)
+  · split at h
+    · cases h
+    next trx ht =>
+      split at h
+      · cases h
+      next a ha =>
+        by_cases hpow : ∃ on, a = .power on
+        · obtain ⟨on, rfl⟩ := hpow
+          right
+          simp only [applyAction, bind, Except.bind, pure, Except.pure] at h
+          split at h
+          · cases h
+          next w2 hw2 =>
+            cases h
+            exact ⟨trx, on, rfl, ht, ha, hw2, rfl⟩
+        · left
+          exact applyAction_frame (fun on hon => hpow ⟨on, hon⟩) h
+
+/-- `send_response` -/
+def respond (trx : Trx) (srcAddr srcPort : Nat) (req : List Str) (w' : World) (rc : Int)
+    (params : List Str) : Res :=
+  let fields := match req with
+    | [] => [intToStr rc]
+    | verb :: args => verb :: intToStr rc :: args
+  let resp := lit "RSP " ++ joinSpace (fields ++ params) ++ [0]
+  { world := w', out := [⟨trx.ctrlPort, srcAddr, srcPort, encodeUtf8 resp⟩] }
+
+/-- `handle_rx` once the request is split -/
+def handleReq (w : World) (i : Nat) (trx : Trx) (srcAddr srcPort : Nat) (req : List Str) : Res :=
+  match parseCmd w i req with
+  | .ok (w', (rc, params)) => respond trx srcAddr srcPort req w' rc params
+  | .error .valueError => respond trx srcAddr srcPort req w (-1) []
+  | .error e => { world := w, exc := some e }
+
+theorem handleRx_eq {w : World} {i : Nat} {trx : Trx} (hw : w.trxs[i]? = some trx)
+    (a sp : Nat) (d : List Nat) :
+    handleRx w i a sp d =
+      match ctrlRequest d with
+      | none => { world := w }
+      | some req => handleReq w i trx a sp req := by
+  unfold handleRx ctrlRequest
+  rw [hw]
+  simp only []
+  cases decodeUtf8 (List.take Gen.World.ctrlRecvSize d) with
+  | none => rfl
+  | some s =>
+    simp only []
+    by_cases hs : startsWith s (lit "CMD") = true
+    · rw [if_neg (fun hn => hn hs), if_pos hs]
+      rfl
+    · rw [if_pos hs, if_neg hs]
+
 end OsmoVerif.WorldPower
